@@ -25,6 +25,7 @@ type segLazyCase struct {
 	Tracks   []mp4build.Track    `json:"tracks"`
 	Layout   mp4build.ProgLayout `json:"layout"`
 	SegDurMS uint64              `json:"segDurMS"`
+	Mux      bool                `json:"mux,omitempty"` // both runs with -m (multiplexed output)
 }
 
 func init() { harness.RegisterReplay("segmenterlazy", harness.Replayer(checkSegmenterLazy)) }
@@ -73,11 +74,15 @@ func checkSegmenterLazy(c segLazyCase) *harness.Fail {
 		return harness.Failf("harness|c08|scratch directory", "%v", err)
 	}
 	d := fmt.Sprint(c.SegDurMS)
-	full := runTool(dir, binPath("segmenter"), "-d", d, "in.mp4", "full/out")
+	var mux []string
+	if c.Mux {
+		mux = []string{"-m"}
+	}
+	full := runTool(dir, binPath("segmenter"), append(append([]string{"-d", d}, mux...), "in.mp4", "full/out")...)
 	if crashed, _ := full.crashed(); crashed || full.Exit != 0 {
 		return nil // the in-memory mode does not handle this input: no claim here (C11 judges the tool as such)
 	}
-	lazy := runTool(dir, binPath("segmenter"), "-d", d, "-lazy", "in.mp4", "lazy/out")
+	lazy := runTool(dir, binPath("segmenter"), append(append([]string{"-d", d, "-lazy"}, mux...), "in.mp4", "lazy/out")...)
 	if crashed, class := lazy.crashed(); crashed {
 		return harness.Failf("C08|segmenter -lazy|panic where the in-memory mode succeeds ("+class+")", "%s", tail(lazy.Stderr, 1200))
 	}
@@ -125,7 +130,7 @@ func TestSegmenterLazy(t *testing.T) {
 		cases := make([]segLazyCase, segBatch)
 		for i := range cases {
 			tracks, lay, _, dur, _ := mp4build.GenSegmenterInput(rt, harness.Pick(30, 60), true)
-			cases[i] = segLazyCase{Tracks: tracks, Layout: lay, SegDurMS: dur}
+			cases[i] = segLazyCase{Tracks: tracks, Layout: lay, SegDurMS: dur, Mux: rapid.IntRange(0, 2).Draw(rt, "mux") == 0}
 		}
 		fails := make([]*harness.Fail, len(cases))
 		nfiles := make([]int, len(cases))
